@@ -83,6 +83,32 @@ def run_pool(name, tier, d, via=None, actors=False, bots=False):
         if bots:
             cmd += ["--bots"]
         jobs.append((cmd, out))
+    return run_jobs(name, jobs, d, procs)
+
+
+TLC_SCHEDULES = (96, 1500)   # behaviours of TableLifeSim turned into driver schedules (quick, thorough)
+
+
+def run_tlc_pool(tier, d):
+    """spec -> code: tlc -simulate picks the interleavings of external calls with the asynchronous life cycle"""
+    import tlc_scen
+    n = TLC_SCHEDULES[0] if tier == "quick" else TLC_SCHEDULES[1]
+    path, k = tlc_scen.generate(n, vlib.seed(), d)
+    scs = json.load(open(path))
+    procs = min(48, max(1, k // 2))
+    jobs = []
+    for i in range(procs):
+        part = scs[i::procs]
+        if not part:
+            continue
+        sf = os.path.join(d, "tlc-sched-%02d.json" % i)
+        json.dump(part, open(sf, "w"))
+        out = os.path.join(d, "tlc-schedules-%02d.ndjson" % i)
+        jobs.append(([VH, "table", "--scenario", sf, "--out", out], out))
+    return run_jobs("tlc-schedules", jobs, d, procs)
+
+
+def run_jobs(name, jobs, d, procs):
 
     def run(job):
         cmd, out = job
@@ -207,9 +233,9 @@ def family(tier):
     shutil.rmtree(os.path.join(OUT, "cache"), ignore_errors=True)
     os.makedirs(cdir, exist_ok=True)
     res = {}
-    for name in POOLS:
+    for name in list(POOLS) + ["tlc-schedules"]:
         t0 = time.time()
-        path, summ, crashed = run_pool(name, tier, cdir)
+        path, summ, crashed = run_tlc_pool(tier, cdir) if name == "tlc-schedules" else run_pool(name, tier, cdir)
         tr = tlc_trace("TableTrace.tla", "TableTrace.cfg", path, timeout=3000, parts=14, by_trace=True)
         res[name] = {"file": path, "summary": summ, "crashed": [c[1] for c in crashed], "lines": tr["lines"],
                      "viol": tr["viol"], "drive_tlc_wall_s": round(time.time() - t0, 1)}
